@@ -13,7 +13,7 @@ from tools import execdriver
 
 UNIT = u = Unit('defer_exec', ['C03'], 'bounded: generated defer / jump programs executed, output compared with an interpreter of the property')
 u.expected = ['compile_expr_with_args']
-u.trusted += ['BOUNDED stand-in (not a proof): nests of depth <= 2 (quick) / <= 3 (thorough) over {block, labelled block, while, if}, two defers per level, one jump kind per program, jump taken / not taken; loops run two iterations; deferred expressions are prints; oracle: an interpreter written from the property statement; core.println and the host linker are trusted']
+u.trusted += ['BOUNDED stand-in (not a proof): nests of depth <= 2 (quick) / <= 3 (thorough) over {block, labelled block, while, if}, two defers per level (and, for each level, the variant in which that level registers none), one jump kind per program, jump taken / not taken; loops run two iterations; deferred expressions are prints; oracle: an interpreter written from the property statement; core.println and the host linker are trusted']
 
 KINDS = ['B', 'L', 'W', 'I']
 
@@ -23,12 +23,14 @@ class Jump(Exception):
         self.kind, self.label = kind, label
 
 
-def gen_nest(kinds, jump, fam):
+def gen_nest(kinds, jump, fam, bare=frozenset()):
     """kinds: the constructs nested in the function body, outermost first -> tree for emit / interp
     nodes: ('p', tag) ('d', tag) ('blk', label|None, seq) ('while', label, var, seq) ('if', seq) ('jump', kind, label)"""
     def level(i):
         # level 0 is the function body, level i > 0 the body of construct kinds[i - 1]
-        body = [('p', 'a%d' % i), ('d', 'd%da' % i)]
+        # a level in `bare` registers no defer of its own (its frame is still the place where
+        # a jump to its label stops unwinding)
+        body = [('p', 'a%d' % i)] + ([] if i in bare else [('d', 'd%da' % i)])
         if i < len(kinds):
             k = kinds[i]
             inner = level(i + 1)
@@ -42,7 +44,8 @@ def gen_nest(kinds, jump, fam):
                 body.append(('if', inner))
         elif jump[0] != 'none':
             body.append(('if', [('jump',) + jump]))
-        body.append(('d', 'd%db' % i))
+        if i not in bare:
+            body.append(('d', 'd%db' % i))
         body.append(('p', 'z%d' % i))
         return body
     return level(0)
@@ -145,7 +148,11 @@ def programs(depth, fams):
             for fam in fams:
                 js = jumps if fam == 'void' else [('try', None), ('return', None)]
                 for j in js:
-                    fns.append((kinds, j, fam))
+                    fns.append((kinds, j, fam, frozenset()))
+                    if fam == 'void':
+                        # the same nest with one construct that registers no defer of its own
+                        for lvl in range(1, len(kinds) + 1):
+                            fns.append((kinds, j, fam, frozenset([lvl])))
     return fns
 
 
@@ -157,11 +164,11 @@ def build_cases(depth, fams, per_file=120):
         src = ['core :: #mod("core");', '', 'opt_of :: (c: bool) -> ?u64 {', '    if c { return nil; }', '    5', '}', '']
         main = ['main :: () {']
         expected = []
-        for k, (kinds, jump, fam) in enumerate(chunk):
+        for k, (kinds, jump, fam, bare) in enumerate(chunk):
             name = 'fn_%d' % k
-            tree = gen_nest(kinds, jump, fam)
+            tree = gen_nest(kinds, jump, fam, bare)
             ret = {'void': '', 'optvoid': ' -> ?void', 'u64': ' -> ?u64'}[fam]
-            src.append('// nest %s jump %s family %s' % (''.join(kinds), jump, fam))
+            src.append('// nest %s jump %s family %s bare levels %s' % (''.join(kinds), jump, fam, sorted(bare)))
             src.append('%s :: (c: bool)%s {' % (name, ret))
             body = []
             emit(tree, 1, fam, body)
@@ -171,7 +178,7 @@ def build_cases(depth, fams, per_file=120):
             src.append('}')
             src.append('')
             for c in (True, False):
-                head = '# %s nest=%s jump=%s%s family=%s c=%s' % (name, ''.join(kinds), jump[0], ('`' + jump[1]) if jump[1] else '', fam, 'true' if c else 'false')
+                head = '# %s nest=%s jump=%s%s family=%s bare=%s c=%s' % (name, ''.join(kinds), jump[0], ('`' + jump[1]) if jump[1] else '', fam, ''.join(str(x) for x in sorted(bare)) or '-', 'true' if c else 'false')
                 main.append('    core.println("%s");' % head)
                 main.append('    %s(%s);' % (name, 'true' if c else 'false'))
                 expected.append(head)
